@@ -933,6 +933,11 @@ class CodeGen:
             bubble += arg_bubble
 
         label = self.label_for_func(ConcreteSignature(name, tuple(concrete_params)))
+        if label == asm.LabelRef('write_int'):
+            # write_int builds its digits downwards from its argument
+            # slot, up to 2 words below its frame.  It has no overflow
+            # check of its own, so account for the buffer here.
+            self.checkpoints.update(self.stack.static_size + 2 * self.word_size)
         yield asm.Add(self.fp, asm.State(self.fp), asm.IntLiteral(-offset))
         yield from self.goto(label)
         yield asm.Label(end_call)
